@@ -1,5 +1,5 @@
-(* Proofs/C11/Conflict.v -- the conflicting call raises, the earlier driver / child / wire stays in place,
-   what a failed call leaves behind, and the refutations around wires whose rename / reparent failed *)
+(* Proofs/C11/Conflict.v -- the conflicting call raises, every raising call leaves the state untouched,
+   the earlier driver / child / wire stays in place, every wire stays registered *)
 From Coq Require Import ZArith List Bool Arith Lia Setoid.
 From V Require Import Model.Build Spec.C11 Proofs.C11.Tbl Proofs.C11.Inv.
 Import ListNotations.
@@ -11,31 +11,69 @@ Proof.
   rewrite tget_tput, H. reflexivity.
 Qed.
 
+(* deleting a key never makes another key appear: appendWire's own duplicate test cannot fire after the pre-check *)
+Lemma tmem_after_del : forall (T : nat -> tbl) p n p' n',
+  tmem (T p') n' = false -> tmem (upd T p (tdel (T p) n) p') n' = false.
+Proof.
+  intros T p n p' n' H. unfold upd. destruct (Nat.eqb_spec p' p) as [E|E]; [subst p'|exact H].
+  unfold tmem in *. rewrite tget_tdel. destruct (Z.eqb n' n); auto.
+Qed.
+
+(* the three ways `move` can end *)
+Lemma move_cases : forall s w np nn s' out,
+  move s w np nn = (s', out) ->
+  (s' = s /\ out <> Ok) \/
+  (out = Ok /\ w < nwire s /\
+   let p := wparent s w in let n := wname s w in
+   let p' := match np with Some x => x | None => p end in
+   let n' := match nn with Some x => x | None => n end in
+   p' < nobj s /\ tmem (owires s p') n' = false /\ tmem (owires s p) n = true /\
+   let T1 := upd (owires s) p (tdel (owires s p) n) in
+   s' = set_owires (set_wparent (set_wname (set_owires s T1) (upd (wname s) w n')) (upd (wparent s) w p'))
+                   (upd T1 p' (tput (T1 p') n' w))).
+Proof.
+  intros s w np nn s' out H. unfold move in H.
+  destruct (Nat.ltb_spec w (nwire s)) as [Hw|Hw]; cbn [negb] in H; [|inversion H; left; split; auto; discriminate].
+  destruct (Nat.ltb_spec (match np with Some x => x | None => wparent s w end) (nobj s)) as [Hp|Hp]; cbn [negb] in H;
+    [|inversion H; left; split; auto; discriminate].
+  destruct (tmem (owires s _) _) eqn:Hpre in H; [inversion H; left; split; auto; discriminate|].
+  destruct (tmem (owires s (wparent s w)) (wname s w)) eqn:Hm; cbn [negb] in H; [|inversion H; left; split; auto; discriminate].
+  cbn in H. rewrite tmem_after_del in H by exact Hpre. inversion H; subst. right. cbn. repeat split; auto.
+Qed.
+
+Lemma raise_unchanged : forall s o s' c, step s o = (s', Raise c) -> s' = s.
+Proof.
+  intros s o s' c H.
+  assert (MV : forall w np nn, move s w np nn = (s', Raise c) -> s' = s).
+  { intros w np nn HM. apply move_cases in HM. destruct HM as [[E _]|[E _]]; [auto|discriminate]. }
+  destruct o as [[p|] n prim|p n width|o n w|o n w|o n w|w n|w p|w p n]; cbn [step] in H; eauto.
+  - unfold new_logic in H. destruct (negb (p <? nobj s)); [inversion H; subst; auto|].
+    destruct (tmem (ochildren s p) n); inversion H; subst; auto.
+  - unfold new_logic in H. inversion H.
+  - unfold new_wire in H. destruct (negb (p <? nobj s)); [inversion H; subst; auto|].
+    destruct (tmem (owires s p) n); inversion H; subst; auto.
+  - unfold add_port in H. destruct (negb _); [inversion H; subst; auto|]. destruct (_ && _ && _); inversion H; subst; auto.
+  - unfold add_port in H. destruct (negb _); [inversion H; subst; auto|]. destruct (_ && _ && _); inversion H; subst; auto.
+  - unfold add_port in H. destruct (negb _); [inversion H; subst; auto|]. destruct (_ && _ && _); inversion H; subst; auto.
+Qed.
+
 (* ---------------------------------------------------------------- the conflicting call raises *)
 Lemma conflict_raises : forall s o c,
-  Inv s -> valid_op s o -> subject_registered s o -> conflict_of s o = Some c -> snd (step s o) = Raise c.
+  Inv s -> valid_op s o -> conflict_of s o = Some c -> snd (step s o) = Raise c.
 Proof.
-  intros s o c Hinv Hv Hreg Hc.
+  intros s o c Hinv Hv Hc.
   assert (MV : forall w np nn p' n',
-             w < nwire s -> p' < nobj s -> registered s w ->
+             w < nwire s -> p' < nobj s ->
              p' = match np with Some x => x | None => wparent s w end ->
              n' = match nn with Some x => x | None => wname s w end ->
              wire_conflict s w p' n' = Some c -> snd (move s w np nn) = Raise c).
-  { intros w np nn p' n' Hw Hp' Hr Ep En Hwc. unfold move.
+  { intros w np nn p' n' Hw Hp' Ep En Hwc. unfold move.
     destruct (Nat.ltb_spec w (nwire s)); [|lia]. cbn [negb].
     rewrite <- Ep, <- En.
     destruct (Nat.ltb_spec p' (nobj s)); [|lia]. cbn [negb].
-    unfold registered in Hr. unfold tmem at 1. rewrite Hr. cbn [negb].
-    unfold wire_conflict in Hwc. destruct (tget (owires s p') n') as [w'|] eqn:Ht; [|discriminate].
-    destruct (Nat.eqb_spec w' w) as [E|E]; [discriminate|]. inversion Hwc; subst c; clear Hwc.
-    cbn.
-    assert (Ht1 : tget (upd (owires s) (wparent s w) (tdel (owires s (wparent s w)) (wname s w)) p') n' = Some w').
-    { unfold upd. destruct (Nat.eqb_spec p' (wparent s w)) as [E1|E1]; [|exact Ht].
-      rewrite tget_tdel. destruct (Z.eqb_spec n' (wname s w)) as [E2|E2].
-      - exfalso. apply E. rewrite E1, E2 in Ht. congruence.
-      - rewrite <- E1. exact Ht. }
-    unfold tmem. rewrite Ht1. reflexivity. }
-  destruct o as [[p|] n prim|p n width|o n w|o n w|o n w|w n|w p|w p n]; cbn [step conflict_of valid_op subject_registered subject] in *.
+    unfold wire_conflict in Hwc. unfold tmem at 1. destruct (tget (owires s p') n') as [w'|] eqn:Ht; [|discriminate].
+    destruct (Nat.eqb w' w); [discriminate|]. inversion Hwc; reflexivity. }
+  destruct o as [[p|] n prim|p n width|o n w|o n w|o n w|w n|w p|w p n]; cbn [step conflict_of valid_op] in *.
   - unfold new_logic. destruct (Nat.ltb_spec p (nobj s)); [|lia]. cbn [negb].
     destruct (tmem (ochildren s p) n); [inversion Hc; reflexivity | discriminate].
   - discriminate.
@@ -53,101 +91,30 @@ Proof.
   - destruct Hv. eapply (MV w (Some p) (Some n)); eauto.
 Qed.
 
-(* ---------------------------------------------------------------- what a raising call leaves behind *)
-Lemma raise_unchanged : forall s o s' c,
-  step s o = (s', Raise c) -> subject o = None -> s' = s.
+(* ---------------------------------------------------------------- a raising call names an existing item *)
+Lemma raise_names_existing : forall s o s' c,
+  all_registered s -> step s o = (s', Raise c) -> names_existing s c.
 Proof.
-  intros s o s' c H Hs.
-  destruct o as [[p|] n prim|p n width|o n w|o n w|o n w|w n|w p|w p n]; cbn [step subject] in *; try discriminate.
-  - unfold new_logic in H. destruct (negb (p <? nobj s)); [inversion H; subst; auto|].
-    destruct (tmem (ochildren s p) n); inversion H; subst; auto.
-  - unfold new_wire in H. destruct (negb (p <? nobj s)); [inversion H; subst; auto|].
-    destruct (tmem (owires s p) n); inversion H; subst; auto.
-  - unfold add_port in H. destruct (negb _); [inversion H; subst; auto|]. destruct (_ && _ && _); inversion H; subst; auto.
-  - unfold add_port in H. destruct (negb _); [inversion H; subst; auto|]. destruct (_ && _ && _); inversion H; subst; auto.
-  - unfold add_port in H. destruct (negb _); [inversion H; subst; auto|]. destruct (_ && _ && _); inversion H; subst; auto.
-Qed.
-
-(* a raising call names its conflict truthfully: the earlier item is there before and after *)
-Lemma raise_child_kept : forall s o s' p n,
-  step s o = (s', Raise (CChild p n)) -> s' = s /\ exists c, tget (ochildren s p) n = Some c.
-Proof.
-  intros s o s' p n H.
-  destruct o as [[p0|] n0 prim|p0 n0 width|o n0 w|o n0 w|o n0 w|w n0|w p0|w p0 n0]; cbn [step] in H.
-  - unfold new_logic in H. destruct (negb (p0 <? nobj s)); [inversion H|].
-    destruct (tmem (ochildren s p0) n0) eqn:Hm; inversion H; subst. split; auto. now apply tmem_true.
-  - inversion H.
-  - unfold new_wire in H. destruct (negb _); [inversion H|]. destruct (tmem _ _); inversion H.
-  - unfold add_port in H. destruct (negb _); [inversion H|]. destruct (_ && _ && _); inversion H.
-  - unfold add_port in H. destruct (negb _); [inversion H|]. destruct (_ && _ && _); inversion H.
-  - unfold add_port in H. destruct (negb _); [inversion H|]. destruct (_ && _ && _); inversion H.
-  - unfold move in H. destruct (negb _); [inversion H|]. destruct (negb _); [inversion H|].
-    destruct (negb _); [inversion H|]. cbn in H. destruct (tmem _ _); inversion H.
-  - unfold move in H. destruct (negb _); [inversion H|]. destruct (negb _); [inversion H|].
-    destruct (negb _); [inversion H|]. cbn in H. destruct (tmem _ _); inversion H.
-  - unfold move in H. destruct (negb _); [inversion H|]. destruct (negb _); [inversion H|].
-    destruct (negb _); [inversion H|]. cbn in H. destruct (tmem _ _); inversion H.
-Qed.
-
-Lemma raise_driver_kept : forall s o s' w,
-  step s o = (s', Raise (CDriver w)) -> s' = s /\ exists q, wsource s w = Some q.
-Proof.
-  intros s o s' w H.
-  assert (AP : forall k o n w0, add_port s k o n w0 = (s', Raise (CDriver w)) -> s' = s /\ exists q, wsource s w = Some q).
-  { intros k o0 n w0 HA. unfold add_port in HA. destruct (negb _); [inversion HA|].
-    destruct (oprim s o0 && drives k && is_some (wsource s w0)) eqn:Hc; inversion HA; subst. split; auto.
-    apply andb_true_iff in Hc. destruct Hc as [_ Hc]. destruct (wsource _ w); [eauto | discriminate]. }
-  destruct o as [[p0|] n0 prim|p0 n0 width|o n0 w0|o n0 w0|o n0 w0|w0 n0|w0 p0|w0 p0 n0]; cbn [step] in H; eauto.
-  - unfold new_logic in H. destruct (negb _); [inversion H|]. destruct (tmem _ _); inversion H.
-  - inversion H.
-  - unfold new_wire in H. destruct (negb _); [inversion H|]. destruct (tmem _ _); inversion H.
-  - unfold move in H. destruct (negb _); [inversion H|]. destruct (negb _); [inversion H|].
-    destruct (negb _); [inversion H|]. cbn in H. destruct (tmem _ _); inversion H.
-  - unfold move in H. destruct (negb _); [inversion H|]. destruct (negb _); [inversion H|].
-    destruct (negb _); [inversion H|]. cbn in H. destruct (tmem _ _); inversion H.
-  - unfold move in H. destruct (negb _); [inversion H|]. destruct (negb _); [inversion H|].
-    destruct (negb _); [inversion H|]. cbn in H. destruct (tmem _ _); inversion H.
-Qed.
-
-(* a duplicate-wire error: the wire registered under that name is the same before and after the call, and it
-   is not the wire that was being created / moved (which is now in no table) *)
-Lemma raise_wire_kept : forall s o s' p n,
-  Inv s -> step s o = (s', Raise (CWire p n)) ->
-  exists w', tget (owires s p) n = Some w' /\ tget (owires s' p) n = Some w' /\ subject o <> Some w'.
-Proof.
-  intros s o s' p n Hinv H.
-  assert (MV : forall w np nn, move s w np nn = (s', Raise (CWire p n)) ->
-               exists w', tget (owires s p) n = Some w' /\ tget (owires s' p) n = Some w' /\ Some w <> Some w').
+  intros s o s' c Hreg H.
+  assert (MV : forall w np nn, move s w np nn = (s', Raise c) -> names_existing s c).
   { intros w np nn HM. unfold move in HM.
     destruct (Nat.ltb_spec w (nwire s)) as [Hw|Hw]; cbn [negb] in HM; [|inversion HM].
-    set (p0 := wparent s w) in *. set (n0 := wname s w) in *.
-    set (p' := match np with Some x => x | None => p0 end) in *.
-    set (n' := match nn with Some x => x | None => n0 end) in *.
-    destruct (Nat.ltb_spec p' (nobj s)) as [Hp'|Hp']; cbn [negb] in HM; [|inversion HM].
-    destruct (tmem (owires s p0) n0) eqn:Hreg; cbn [negb] in HM; [|inversion HM].
-    cbn in HM.
-    match type of HM with (if ?c then _ else _) = _ => destruct c eqn:Hm2 end; [|inversion HM].
-    injection HM as Es Ep En. rewrite <- Es, <- Ep, <- En. cbn.
-    apply tmem_true in Hm2. destruct Hm2 as [w' Hw'].
-    exists w'. rewrite Hw'.
-    pose proof (i_wires s Hinv) as [W1 W2]. pose proof (i_wpar s Hinv w Hw) as Hp0. fold p0 in Hp0.
-    revert Hw'. unfold upd.
-    destruct (Nat.eqb_spec p' p0) as [E|E].
-    - rewrite tget_tdel. destruct (Z.eqb_spec n' n0) as [E2|E2]; [discriminate|].
-      intros Ht. rewrite E. repeat split; auto.
-      intros Ew; injection Ew as Ew; subst w'. apply tget_In in Ht.
-      destruct (W2 _ _ _ Hp0 Ht) as [_ [_ En0]]. fold n0 in En0. congruence.
-    - intros Ht. repeat split; auto. intros Ew; injection Ew as Ew; subst w'.
-      apply tget_In in Ht. destruct (W2 _ _ _ Hp' Ht) as [_ [Ep0 _]]. fold p0 in Ep0. congruence. }
-  destruct o as [[p0|] n0 prim|p0 n0 width|o n0 w|o n0 w|o n0 w|w n0|w p0|w p0 n0]; cbn [step subject] in *; eauto.
-  - unfold new_logic in H. destruct (negb _); [inversion H|]. destruct (tmem _ _); inversion H.
+    destruct (negb _); [inversion HM|].
+    destruct (tmem (owires s _) _) eqn:Hpre in HM.
+    - inversion HM; subst. cbn. now apply tmem_true.
+    - destruct (tmem (owires s (wparent s w)) (wname s w)) eqn:Hm; cbn [negb] in HM.
+      + cbn in HM. rewrite tmem_after_del in HM by exact Hpre. inversion HM.
+      + exfalso. specialize (Hreg w Hw). unfold registered in Hreg. unfold tmem in Hm. rewrite Hreg in Hm. discriminate. }
+  assert (AP : forall k o0 n w0, add_port s k o0 n w0 = (s', Raise c) -> names_existing s c).
+  { intros k o0 n w0 HA. unfold add_port in HA. destruct (negb _); [inversion HA|].
+    destruct (oprim s o0 && drives k && is_some (wsource s w0)) eqn:Hc; inversion HA; subst. cbn.
+    apply andb_true_iff in Hc. destruct Hc as [_ Hc]. destruct (wsource _ w0); [eauto | discriminate]. }
+  destruct o as [[p|] n prim|p n width|o n w|o n w|o n w|w n|w p|w p n]; cbn [step] in H; eauto.
+  - unfold new_logic in H. destruct (negb _); [inversion H|].
+    destruct (tmem (ochildren s p) n) eqn:Hm; inversion H; subst. cbn. now apply tmem_true.
   - inversion H.
   - unfold new_wire in H. destruct (negb _); [inversion H|].
-    destruct (tmem (owires s p0) n0) eqn:Hm; inversion H; subst.
-    apply tmem_true in Hm. destruct Hm as [w' Hw']. exists w'. repeat split; auto. discriminate.
-  - unfold add_port in H. destruct (negb _); [inversion H|]. destruct (_ && _ && _); inversion H.
-  - unfold add_port in H. destruct (negb _); [inversion H|]. destruct (_ && _ && _); inversion H.
-  - unfold add_port in H. destruct (negb _); [inversion H|]. destruct (_ && _ && _); inversion H.
+    destruct (tmem (owires s p) n) eqn:Hm; inversion H; subst. cbn. now apply tmem_true.
 Qed.
 
 (* ---------------------------------------------------------------- earlier items stay in place, for EVERY call *)
@@ -157,8 +124,9 @@ Proof.
   assert (AP : forall kd o0 n w, tget (ochildren (fst (add_port s kd o0 n w)) p) k = Some c).
   { intros. unfold add_port. destruct (negb _); [exact Ht|]. destruct (_ && _ && _); exact Ht. }
   assert (MV : forall w np nn, tget (ochildren (fst (move s w np nn)) p) k = Some c).
-  { intros. unfold move. destruct (negb _); [exact Ht|]. destruct (negb _); [exact Ht|].
-    destruct (negb _); [exact Ht|]. cbn. destruct (tmem _ _); exact Ht. }
+  { intros. destruct (move s w np nn) as [s' out] eqn:E. apply move_cases in E.
+    destruct E as [[E _]|[_ [_ E]]]; cbn [fst]; [subst; exact Ht|].
+    cbn in E. destruct E as [_ [_ [_ E]]]. subst s'. exact Ht. }
   destruct o as [[p0|] n0 prim|p0 n0 width|o n0 w|o n0 w|o n0 w|w n0|w p0|w p0 n0]; cbn [step]; auto.
   - unfold new_logic. destruct (negb _); [exact Ht|]. destruct (tmem _ _); [exact Ht|]. cbn.
     rewrite upd_other by lia. now apply tget_upd_tput_keep.
@@ -175,8 +143,9 @@ Proof.
     unfold upd. destruct (Nat.eqb_spec x w) as [E|E]; [subst x|exact Hs].
     rewrite Hs in *. cbn in Hc. rewrite andb_true_r in Hc. rewrite Hc. reflexivity. }
   assert (MV : forall w np nn, wsource (fst (move s w np nn)) x = Some q).
-  { intros. unfold move. destruct (negb _); [exact Hs|]. destruct (negb _); [exact Hs|].
-    destruct (negb _); [exact Hs|]. cbn. destruct (tmem _ _); exact Hs. }
+  { intros. destruct (move s w np nn) as [s' out] eqn:E. apply move_cases in E.
+    destruct E as [[E _]|[_ [_ E]]]; cbn [fst]; [subst; exact Hs|].
+    cbn in E. destruct E as [_ [_ [_ E]]]. subst s'. exact Hs. }
   destruct o as [[p0|] n0 prim|p0 n0 width|o n0 w|o n0 w|o n0 w|w n0|w p0|w p0 n0]; cbn [step]; auto.
   - unfold new_logic. destruct (negb _); [exact Hs|]. destruct (tmem _ _); exact Hs.
   - unfold new_wire. destruct (negb _); [exact Hs|]. destruct (tmem _ _); [exact Hs|]. cbn.
@@ -189,14 +158,12 @@ Proof.
   assert (AP : forall kd o0 n w, tget (owires (fst (add_port s kd o0 n w)) p) k = Some x).
   { intros. unfold add_port. destruct (negb _); [exact Ht|]. destruct (_ && _ && _); exact Ht. }
   assert (MV : forall w np nn, registered s w -> Some w <> Some x -> tget (owires (fst (move s w np nn)) p) k = Some x).
-  { intros w np nn Hr Hne. unfold move. destruct (negb _); [exact Ht|]. destruct (negb _); [exact Ht|].
-    destruct (negb _); [exact Ht|]. cbn.
-    assert (K : tget (upd (owires s) (wparent s w) (tdel (owires s (wparent s w)) (wname s w)) p) k = Some x).
-    { unfold upd. destruct (Nat.eqb_spec p (wparent s w)) as [E|E]; [|exact Ht].
-      rewrite tget_tdel. destruct (Z.eqb_spec k (wname s w)) as [E2|E2]; [|rewrite <- E; exact Ht].
-      exfalso. apply Hne. unfold registered in Hr. rewrite <- E, <- E2 in Hr. congruence. }
-    destruct (tmem _ _); cbn; [exact K|].
-    apply tget_upd_tput_keep. exact K. }
+  { intros w np nn Hr Hne. destruct (move s w np nn) as [s' out] eqn:E. apply move_cases in E.
+    destruct E as [[E _]|[_ [_ E]]]; cbn [fst]; [subst; exact Ht|].
+    cbn in E. destruct E as [_ [_ [_ E]]]. subst s'. cbn.
+    apply tget_upd_tput_keep. unfold upd. destruct (Nat.eqb_spec p (wparent s w)) as [E|E]; [|exact Ht].
+    rewrite tget_tdel. destruct (Z.eqb_spec k (wname s w)) as [E2|E2]; [|rewrite <- E; exact Ht].
+    exfalso. apply Hne. unfold registered in Hr. rewrite <- E, <- E2 in Hr. congruence. }
   destruct o as [[p0|] n0 prim|p0 n0 width|o n0 w|o n0 w|o n0 w|w n0|w p0|w p0 n0]; cbn [step subject_registered subject] in *; auto.
   - unfold new_logic. destruct (negb _); [exact Ht|]. destruct (tmem _ _); [exact Ht|]. cbn.
     rewrite upd_other by lia. exact Ht.
@@ -212,8 +179,9 @@ Proof.
   assert (AP : forall kd o0 n w, nobj s <= nobj (fst (add_port s kd o0 n w)) /\ nwire s <= nwire (fst (add_port s kd o0 n w))).
   { intros. unfold add_port. destruct (negb _); [cbn; lia|]. destruct (_ && _ && _); cbn; lia. }
   assert (MV : forall w np nn, nobj s <= nobj (fst (move s w np nn)) /\ nwire s <= nwire (fst (move s w np nn))).
-  { intros. unfold move. destruct (negb _); [cbn; lia|]. destruct (negb _); [cbn; lia|].
-    destruct (negb _); [cbn; lia|]. cbn. destruct (tmem _ _); cbn; lia. }
+  { intros. destruct (move s w np nn) as [s' out] eqn:E. apply move_cases in E.
+    destruct E as [[E _]|[_ [_ E]]]; cbn [fst]; [subst; lia|].
+    cbn in E. destruct E as [_ [_ [_ E]]]. subst s'. cbn. lia. }
   destruct o as [[p0|] n0 prim|p0 n0 width|o n0 w|o n0 w|o n0 w|w n0|w p0|w p0 n0]; cbn [step]; auto.
   - unfold new_logic. destruct (negb _); [cbn; lia|]. destruct (tmem _ _); cbn; lia.
   - cbn. lia.
